@@ -249,7 +249,15 @@ class FilesystemOnionService(object):
             # released?!
             uploaded[0] = _await_descriptor_upload(config.tor_protocol, fhs, progress, await_all_uploads)
 
-        yield config.save()
+        try:
+            yield config.save()
+        except Exception:
+            # Tor refused the service: nobody will wait for its
+            # descriptor, so stop listening for it
+            if uploaded[0] is not None:
+                uploaded[0].addErrback(lambda _: None)
+                uploaded[0].cancel()
+            raise
         yield uploaded[0]
         return fhs
 
@@ -555,6 +563,12 @@ def _add_ephemeral_service(config, onion, progress, version, auth=None, await_al
     assert version in (2, 3)
     uploaded_d = _await_descriptor_upload(config.tor_protocol, onion, progress, await_all_uploads)
 
+    def give_up():
+        # the service is not created after all: nobody will wait for
+        # its descriptor, so stop listening for it
+        uploaded_d.addErrback(lambda _: None)
+        uploaded_d.cancel()
+
     # we allow a key to be passed that *doestn'* start with
     # "RSA1024:" because having to escape the ":" for endpoint
     # string syntax (which uses ":" as delimeters) is annoying
@@ -579,6 +593,7 @@ def _add_ephemeral_service(config, onion, progress, version, auth=None, await_al
         keystring = 'NEW:ED25519-V3'
     if version == 3:
         if 'V3' not in keystring:
+            give_up()
             raise ValueError(
                 "version=3 but private key isn't 'ED25519-V3'"
             )
@@ -587,6 +602,7 @@ def _add_ephemeral_service(config, onion, progress, version, auth=None, await_al
     # methods? "Feels nicer" to see it here when building ADD_ONION
     # though?
     if '\r' in keystring or '\n' in keystring:
+        give_up()
         raise ValueError(
             "No newline or return characters allowed in key blobs"
         )
@@ -617,7 +633,11 @@ def _add_ephemeral_service(config, onion, progress, version, auth=None, await_al
                 cmd += ' ClientAuth={}:{}'.format(client_name, keyblob)
                 onion._add_client(client_name, keyblob)
 
-    raw_res = yield config.tor_protocol.queue_command(cmd)
+    try:
+        raw_res = yield config.tor_protocol.queue_command(cmd)
+    except Exception:
+        give_up()
+        raise
     res = find_keywords(raw_res.split('\n'))
     try:
         onion._hostname = res['ServiceID'] + '.onion'
